@@ -1315,3 +1315,51 @@ LEVEL_NOTE = ("Partial: fish (two levels), PowerShell, elvish, nushell and zsh "
               "multi-valued positionals after a catch-all are skipped by design; char::is_uppercase is a parameter of the "
               "PowerShell model; known findings (see known_findings.json) are outside the proved class.")
 # ---- end zsh generator model ----
+
+# ---- round 3: the theorems reach the tree the user wrote; bash value branch; all six in one statement ----
+TECHNIQUE = TECHNIQUE + ("; round 3: the names of the built tree as a structural function of the user's tree (the fuelled "
+                         "recursion of Command::build eliminated), every name class and the user's paths / arguments carried "
+                         "through build, the bash `case \"${prev}\"` value branch, one coverage statement for all six generators")
+LEVEL_TEXT = (LEVEL_TEXT +
+              "  Round 3 (the tree the USER wrote): erase(build c) = bskel c -- the names, aliases and shape of the built tree "
+              "are a structural function of the user's tree (the same commands plus, wherever DisableHelpSubcommand is not in "
+              "force, the generated help subcommand repeating the sibling names), proved through the fuelled recursion once "
+              "(C16_build_skeleton); hence build keeps sibling names and aliases distinct when no subcommand is called `help` "
+              "where clap generates one (C16_build_siblings_ok; the boolean class help_free), keeps every class of subcommand "
+              "names containing `help` (C16_build_names: no blank, dd_safe), only ADDS commands and arguments "
+              "(C16_build_extends) so that every path of the user's tree is a path of the built tree to the image of the same "
+              "command with all its arguments and subcommands (C16_user_paths_are_built_paths).  With these, the classes of the "
+              "per-shell theorems are established FROM THE USER'S TREE: zsh_ok (exact lookup, dispatch, coverage: "
+              "C16_zsh_build_ok / C16_zsh_generate_ok), the unique-block lookup of PowerShell and elvish "
+              "(C16_<sh>_generate_lookup), ztame_cmd of the C17 zsh structure theorem (C16_zsh_build_keeps_tame, "
+              "C16_zsh_generate_same_skeleton), mangle_safe of the bash theorems for hyphen-free subcommand names "
+              "(C16_bash_names_determine_node, C16_bash_generate_table_plain; otherwise the injectivity of the mangled names "
+              "stays a hypothesis on the built tree: C16_build_mangle_safe), and `linked` is no hypothesis of the bash table "
+              "theorem any more (C16_bash_generate_table; the duplicate C16_zsh_build_linked is gone).  bash value branch: after a path, a "
+              "spelling of an option and a partial word the function replies what the arm of THAT option says "
+              "(C16_bash_value_branch); for an option with possible values that is exactly the non-hidden values extending the "
+              "word, whatever the value hint (Other, DirPath, ...) except FilePath, where IFS=$'\\n' makes the list one word "
+              "(C16_bash_value_offers_possible_values, C16_bash_value_arm_text, C16_bash_value_filepath_refuted = observation "
+              "O1).  zsh positionals exactly: the first multi-valued positional of a command without subcommands is the "
+              "catch-all, later multi-valued ones are skipped, and in the class clap's configuration check accepts every "
+              "positional has its line (C16_zsh_positionals_exact / _kept / _valid).  ONE statement for all six generators "
+              "(C16_six_generators_mention_the_same_spellings): for every path of the user's tree, every option or flag of the "
+              "addressed command and every spelling of it (short, long, visible aliases; class: an alias comes with its "
+              "primary), each of the six scripts exists and mentions that spelling where its shell looks it up for that path "
+              "(fish: paths of at most two words); for hyphen-free subcommand names all hypotheses are on the user's tree "
+              "(_plain); the same for the names and visible aliases of the subcommands of the addressed command "
+              "(C16_six_generators_mention_subcommands; nushell: the name); determinism of all six as one statement "
+              "(C16_six_generators_deterministic).")
+LEVEL_NOTE = LEVEL_NOTE.replace(
+    "that build keeps names free of spaces and sibling names distinct is a hypothesis of the zsh "
+    "exact-lookup and coverage theorems (tied by the built-tree dump); ",
+    "that build keeps names free of spaces and sibling names distinct IS proved since round 3 (the built names are a "
+    "structural function of the user's tree); for bash the injectivity of the mangled function names on the built tree is "
+    "derived from the user's tree only when no subcommand name contains a hyphen, otherwise it is a hypothesis on the built "
+    "tree; the six-generator statements cover option spellings and subcommand words (possible values are covered per shell, "
+    "on the built tree, with C16_user_paths_are_built_paths as the bridge); ").replace(
+    "multi-valued positionals after a catch-all are skipped by design; ",
+    "multi-valued positionals are characterised exactly (a second catch-all is skipped by design; clap's configuration check "
+    "admits at most one without `last`); the bash value branch is proved on the model of bash's reading of the script "
+    "(validated under the installed bash on every run, incl. the Other/DirPath witnesses in corpus/C16); ")
+# ---- end round 3 ----
